@@ -325,4 +325,26 @@ def build(tier='quick'):
         'newtype with a lifetime parameter')
     add('generic-bounds', 'full', PRE + '#[nutype(derive(Debug, Clone, PartialEq, PartialOrd), validate(predicate = |v| !v.is_empty()), sanitize(with = |mut v| { v.sort(); v }))]\npub struct W<T: Ord>(Vec<T>);\n', True,
         'generic newtype with a bound, sanitizer and validator')
+    # ---- the user's module defines items named like things the templates mention (not prelude names: those cannot be
+    # shadowed without breaking every derive): a crate-local `Result` alias and `Error` type are common in real crates.
+    # The templates must keep naming theirs by full path.
+    env = (HEAD + 'use nutype::nutype;\npub type Result<T> = ::core::result::Result<T, MyErr>;\npub struct MyErr;\npub struct Error;\n'
+           'pub struct Ordering;\npub struct Formatter;\npub struct Unstructured;\npub struct Regex;\npub struct Visitor;\npub struct Deserializer;\n'
+           'pub struct Serializer;\npub mod fmt {}\npub mod cmp {}\npub mod convert {}\npub mod str {}\n')
+    env_decls = {
+        'string': '#[nutype(sanitize(trim, lowercase), validate(not_empty, len_char_max = 10), derive(Debug, Clone, PartialEq, Eq, PartialOrd, Ord, Hash, AsRef, Deref, '
+                  'Borrow, Into, TryFrom, FromStr, Display, Default, Serialize, Deserialize, Arbitrary), default = "abc", new_unchecked)]\npub struct T(String);\n',
+        'string-regex': '#[nutype(validate(regex = "^a+$"), derive(Debug, TryFrom, FromStr, Deserialize))]\npub struct T(String);\n',
+        'int': '#[nutype(validate(greater = 1, less_or_equal = 100), derive(Debug, Clone, Copy, PartialEq, Eq, PartialOrd, Ord, Hash, AsRef, Deref, Borrow, Into, TryFrom, '
+               'FromStr, Display, Default, Serialize, Deserialize, Arbitrary), default = 5)]\npub struct T(i32);\n',
+        'float': '#[nutype(validate(finite, greater = 1.0, less_or_equal = 100.0), derive(Debug, Clone, Copy, PartialEq, Eq, PartialOrd, Ord, AsRef, Deref, Borrow, Into, '
+                 'TryFrom, FromStr, Display, Default, Serialize, Deserialize, Arbitrary), default = 5.0)]\npub struct T(f64);\n',
+        'any': '#[nutype(validate(predicate = |v| v.len() < 3), derive(Debug, Clone, PartialEq, AsRef, Deref, Into, TryFrom, Serialize, Deserialize, IntoIterator))]\n'
+               'pub struct T(::std::vec::Vec<u8>);\n',
+        'plain': '#[nutype(derive(Debug, Clone, PartialEq, AsRef, Deref, Into, From, FromStr, Display, Serialize, Deserialize, Arbitrary, Default), default = 1)]\n'
+                 'pub struct T(u8);\n',
+    }
+    for k, dsrc in env_decls.items():
+        add(f'env-shadowed-names-{k}', 'full', env + dsrc, True,
+            f'{k}: declaration in a module that defines its own Result alias, Error, Ordering, Formatter, Regex, Visitor, fmt, cmp, ...')
     return ws
